@@ -292,6 +292,7 @@ CLAUSES = {
     "vertex_set": "the vertex set equals that of an independent half-space intersection",
     "volume": "the mesh volume (signed tetrahedra) equals that of the independent half-space intersection",
     "closed": "the triangle mesh is closed: every directed edge occurs once and its reverse once (coincident vertices identified)",
+    "trimesh": "the mesh object returned by to_trimesh() is watertight, has Euler characteristic 2 and the volume of the half-space intersection",
     "outward": "every triangle lies in the plane of the facet it is labelled with and its normal points along that facet's outward normal",
     "facet_lists": "wulff_facets[f] is exactly the set of polytope vertices on plane f (for facets of positive area), fanned area equals the facet area",
     "membership": "the vertices listed for facet f come from dual simplices that contain f",
@@ -354,6 +355,15 @@ def native_clauses(n, e, s=None, orc=None):
         odd = [k for k, m in edges.items() if m != 1 or edges.get((k[1], k[0]), 0) != 1]
         if degenerate.any() or odd or len(T) == 0:
             bad["closed"] = f"{int(degenerate.sum())} degenerate triangles, {len(odd)} unmatched directed edges of {len(edges)}, {len(T)} triangles"
+        # the mesh object handed to users (to_trimesh) is itself closed: watertight, sphere topology, same volume
+        if "closed" not in bad and hasattr(w, "to_trimesh"):
+            ev += 1
+            try:
+                tm = w.to_trimesh()
+                if not (tm.is_watertight and tm.euler_number == 2 and abs(float(tm.volume) - vol) <= 1e-8 * max(vol, sc ** 3 * 1e-3)):
+                    bad["trimesh"] = f"to_trimesh(): watertight={bool(tm.is_watertight)}, Euler characteristic {int(tm.euler_number)}, volume {float(tm.volume)!r} vs {vol!r}, {len(tm.vertices)} vertices"
+            except Exception as ex:  # noqa
+                bad["trimesh"] = f"to_trimesh() raised {ex!r}"[:200]
         ev += 1
         tn = np.cross(tv[:, 1] - tv[:, 0], tv[:, 2] - tv[:, 0])
         along = np.einsum("ij,ij->i", tn, n[TI]) if len(T) else np.zeros(0)
